@@ -395,6 +395,9 @@ func fnPkgName(fn *ssa.Function) string {
 	if fn.Parent() != nil {
 		return fnPkgName(fn.Parent())
 	}
+	if o := fn.Origin(); o != nil && o != fn {
+		return fnPkgName(o)
+	}
 	if fn.Signature.Recv() != nil {
 		if n := namedOf(fn.Signature.Recv().Type()); n != nil && n.Obj().Pkg() != nil {
 			return n.Obj().Pkg().Name()
